@@ -263,6 +263,14 @@ class EffectsV(V):
         self.ops: list[tuple[str, Any]] = []
 
 
+class UninterpV(V):
+    """An abstract spec function (dsl.Uninterpreted)."""
+    kind = "uninterpreted"
+
+    def __init__(self, decl: Any) -> None:
+        self.decl = decl
+
+
 class RecurV(V):
     """A ghost recurrence (dsl.Recurrence) as a callable value."""
     kind = "recurrence"
